@@ -1,4 +1,4 @@
-From Hannibal Require Import Model.Sys Inv.Timers.
+From Hannibal Require Import Model.Sys Inv.Timers Chk.C10.
 From Hannibal Require Props.C10.
 Check Props.C10.C10_not_early :
   forall s a k o s' x, step s (EvTick a k o) = Acc s' -> actors s a = Some x ->
@@ -6,3 +6,12 @@ Check Props.C10.C10_not_early :
 Check Props.C10.C10_timers_die_with_the_actor :
   forall s a how s', step s (EvTaskEnd a how) = Acc s' ->
   exists x', actors s' a = Some x' /\ Forall (fun t => t_aborted t = true) (a_timers x').
+Check Props.C10.C10_schedule : forall tr, accepts tr = true -> chk_C10 tr = true.
+Check Props.C10.C10_dead_actor_has_no_live_timer :
+  forall tr s a x, run init tr = Acc s -> actors s a = Some x -> a_phase x = PhDone ->
+  Forall (fun t => t_aborted t = true) (a_timers x).
+Check Props.C10.C10_nothing_left_when_the_run_ends :
+  forall tr s s', run init tr = Acc s -> step s EvQuiesce = Acc s' ->
+  forall a x k t, actors s a = Some x -> nth_error (a_timers x) k = Some t ->
+    (a_phase x = PhDone -> t_st t = TsEnded)
+    /\ (a_phase x <> PhDone -> t_aborted t = true \/ t_st t = TsEnded \/ exists o, t_st t = TsParked o).
